@@ -1,7 +1,7 @@
 (* Model/C02Check.v — compares the heap/variable snapshots of the implementation after every
    step of a program with the FormulaMachine model. *)
 From Coq Require Import ZArith QArith Qabs String List Bool.
-From PT Require Import Str Dec Py Loaders Formula FormulaMachine AtomEnv Printer.
+From PT Require Import Str Dec Py Loaders Formula FormulaMachine AtomEnv Printer Pyparse TableEnv Mixture PyparseMix Density.
 From PT.Gen Require Import ElementBase.
 Import ListNotations.
 Open Scope Q_scope.
@@ -82,7 +82,37 @@ Definition check_snapshot (E : aenv) (exact : bool) (os : option state) (obs : l
   | None => false
   end.
 
-Definition c02case := (bool * list op * list (list vobs))%type.
+(* programs may also build formulas from strings: formula(s, density=, natural_density=, name=) *)
+Inductive xop :=
+| XO (o : op)
+| XParse (v : nat) (s : string) (density natural_density : option Q) (name : option string).
+
+Definition xstep (E : aenv) (T : ptable) (s : state) (x : xop) : option state :=
+  match x with
+  | XO o => step E s o
+  | XParse v str d nd name =>
+      match parse_formula E T str with
+      | RMOk m =>
+          let f := string_keywords E (m_f m) d nd in
+          let f' := match name with
+                    | Some n => if String.eqb n "" then f else mkF (f_struct f) (f_kind f) (f_density f) (Some n)
+                    | None => f
+                    end in
+          Some (alloc s v f')
+      | RMErr _ => None
+      end
+  end.
+
+Fixpoint xtrace (E : aenv) (T : ptable) (s : state) (ops : list xop) : list (option state) :=
+  match ops with
+  | [] => []
+  | o :: r => match xstep E T s o with
+              | Some s' => Some s' :: xtrace E T s' r
+              | None => [None]
+              end
+  end.
+
+Definition c02case := (bool * list xop * list (list vobs))%type.
 
 Fixpoint zip_check (E : aenv) (exact : bool) (tr : list (option state)) (obs : list (list vobs)) : bool :=
   match tr, obs with
@@ -91,11 +121,11 @@ Fixpoint zip_check (E : aenv) (exact : bool) (tr : list (option state)) (obs : l
   | _, _ => false
   end.
 
-Definition check_case (E : aenv) (c : c02case) : bool :=
-  let '(exact, ops, obs) := c in zip_check E exact (trace E init_state ops) obs.
+Definition check_case (E : aenv) (T : ptable) (c : c02case) : bool :=
+  let '(exact, ops, obs) := c in zip_check E exact (xtrace E T init_state ops) obs.
 
-Definition check_all_with (E : aenv) (cases : list c02case) : list bool := map (check_case E) cases.
-Definition check_all := check_all_with the_env.
+Definition check_all_with (E : aenv) (T : ptable) (cases : list c02case) : list bool := map (check_case E T) cases.
+Definition check_all := check_all_with the_env the_ptable.
 
 (* index of the first step whose snapshot disagrees *)
 Fixpoint first_bad (E : aenv) (exact : bool) (tr : list (option state)) (obs : list (list vobs)) (i : N) : string :=
@@ -105,6 +135,6 @@ Fixpoint first_bad (E : aenv) (exact : bool) (tr : list (option state)) (obs : l
                            else ("step " ++ N_to_string i)%string
   | _, _ => "length"
   end.
-Definition diag_all_with (E : aenv) (cases : list c02case) : list string :=
-  map (fun c => let '(exact, ops, obs) := c in first_bad E exact (trace E init_state ops) obs 0%N) cases.
-Definition diag_all := diag_all_with the_env.
+Definition diag_all_with (E : aenv) (T : ptable) (cases : list c02case) : list string :=
+  map (fun c => let '(exact, ops, obs) := c in first_bad E exact (xtrace E T init_state ops) obs 0%N) cases.
+Definition diag_all := diag_all_with the_env the_ptable.
